@@ -52,7 +52,7 @@ func genStruct(rt *rapid.T, st *StructT, o GenOpts, depth int) *StructV {
 		if fv == nil {
 			return nil
 		}
-		if f.HasDef && Equal(Normalise(f.Type, fv), Normalise(f.Type, f.Default)) {
+		if f.HasDef && HoldsDefault(f, fv) {
 			// a member holding its declared default counts as unset (optional-with-default rule),
 			// so such a union has no member set and cannot be written: not a value of the union
 			return nil
